@@ -100,6 +100,11 @@ def classify_store(I, e, store):
                           "first log's data" % cap
     if store.kind == "dict_store":
         key, val = store.data[1], store.data[2]
+        # (a parameter the path condition pins to a constant may already be replaced by it in one of the two terms)
+        pins = {c.args[0]: c.args[1] for c in conj(store.guard) if isinstance(c, Op) and c.op == "eq" and len(c.args) == 2 and
+                isinstance(c.args[0], Sym) and isinstance(c.args[1], Const)}
+        if pins:
+            key, val = subst(key, pins), subst(val, pins)
         if isinstance(val, Op) and val.op == "import_module":
             if val.args[0] == key:
                 return "import-cache", None
